@@ -4,6 +4,10 @@
  *        c20_sample big    <seed> <ncases>
  *        c20_sample exh    <shard> <nshards> [points]  exhaustive small space (thorough tier); points = loop-grid
  *                                                      points per combination in part 0 (default 3)
+ *        c20_sample short  <seed> <ncases>             random cases through a *callback* HIO handle whose read function
+ *                                                      comes back short after <limit> bytes (0 = fails outright)
+ *        c20_sample exhs   <shard> <nshards>           every width x len 1..6 x {complete, truncated, longer} stream x
+ *                                                      every limit 0..need+1 on 8 flag sets, callback handle
  *        c20_sample replay <file>                      case lines (other lines ignored)
  *        c20_sample corpus <maxbytes> <module>...     load real modules from memory; every call a loader makes to
  *                                                      libxmp_load_sample is intercepted (-Wl,--wrap), recorded as a
@@ -11,13 +15,15 @@
  * env C20_FLUSH=1: flush after every case line (to name the case a sanitizer abort happened in)
  *
  * Output per case (the case line is also the model driver's input, see lean/Drv/C20.lean):
- *   case <id> <flags> <len> <lps> <lpe> <flg> <skip> <pos> <filehex> <bufhex>
+ *   case <id> <flags> <len> <lps> <lpe> <flg> <skip> <pos> <filehex> <bufhex> [<limit>]
  *   R <id> <ret> <len> <lps> <lpe> <flg> <tell> <allochex|NULL>
  *   O <id> <what>            only when the built-in shape oracle (loop range, guard replication) fails
  *
  * The handle is a memory HIO handle over the bytes of <filehex>, positioned at <pos> (pos = -1: NULL
  * handle); <bufhex> is the SAMPLE_FLAG_NOLOAD buffer, allocated with exactly its size so that ASan
- * sees any over-read.  skip: bit 0 = pass a module_data, bit 1 = its smpctl has XMP_SMPCTL_SKIP.
+ * sees any over-read.  With <limit> the handle is hio_open_callbacks() over the same bytes: hio_size() reports the
+ * whole file, but the read callback delivers only <limit> bytes from <pos> on (fread semantics: all bytes it has are
+ * copied, the number of *complete items* is returned), every later read returns 0.  skip: bit 0 = pass a module_data, bit 1 = its smpctl has XMP_SMPCTL_SKIP.
  * allochex = data[-4 .. bytelen+extralen) where bytelen is recomputed from the *resulting* len.
  */
 #include "vcommon.h"
@@ -45,6 +51,8 @@ struct tcase {
 	long filelen;
 	unsigned char *buf;
 	long buflen;
+	int cb;			/* 1: callback handle with a short-reading read function */
+	long limit;		/* bytes it delivers from pos on */
 };
 
 static int frame_len(int flg)
@@ -104,12 +112,70 @@ static void shape_oracle(const struct tcase *c, const struct xmp_sample *s, int 
 	}
 }
 
+/* ---------------------------------------------------------------- callback stream that reads short */
+
+struct cbstream {
+	const unsigned char *data;
+	long size, pos, left;	/* left: bytes the read function will still deliver */
+	long reads, short_reads;
+};
+
+static unsigned long cb_read(void *dest, unsigned long len, unsigned long nmemb, void *priv)
+{
+	struct cbstream *st = (struct cbstream *)priv;
+	unsigned long want = len * nmemb, n = want;
+
+	st->reads++;
+	if (len == 0 || nmemb == 0)
+		return 0;
+	if ((long)n > st->size - st->pos)
+		n = st->pos < st->size ? (unsigned long)(st->size - st->pos) : 0;
+	if ((long)n > st->left)
+		n = (unsigned long)st->left;
+	memcpy(dest, st->data + st->pos, n);
+	st->pos += (long)n;
+	st->left -= (long)n;
+	if (n < want)
+		st->short_reads++;
+	return n / len;
+}
+
+static int cb_seek(void *priv, long offset, int whence)
+{
+	struct cbstream *st = (struct cbstream *)priv;
+	long ofs = offset;
+	if (whence == SEEK_CUR)
+		ofs += st->pos;
+	else if (whence == SEEK_END)
+		ofs += st->size;
+	else if (whence != SEEK_SET)
+		return -1;
+	if (ofs < 0)
+		return -1;
+	if (ofs > st->size)
+		ofs = st->size;
+	st->pos = ofs;
+	return 0;
+}
+
+static long cb_tell(void *priv)
+{
+	return ((struct cbstream *)priv)->pos;
+}
+
+static int cb_close(void *priv)
+{
+	(void)priv;
+	return 0;
+}
+
 static void run_case(struct tcase *c)
 {
 	struct xmp_sample s;
 	HIO_HANDLE *f = NULL;
 	unsigned char *nbuf = NULL;
 	struct module_data *m = NULL;
+	struct cbstream st;
 	int ret;
 	long tell = -1;
 
@@ -118,6 +184,8 @@ static void run_case(struct tcase *c)
 	put_hex(stdout, c->file, c->filelen);
 	fputc(' ', stdout);
 	put_hex(stdout, c->buf, c->buflen);
+	if (c->cb)
+		printf(" %ld", c->limit);
 	fputc('\n', stdout);
 	if (do_flush)
 		fflush(stdout);
@@ -129,7 +197,24 @@ static void run_case(struct tcase *c)
 	s.flg = c->flg;
 	s.data = NULL;
 
-	if (c->pos >= 0) {
+	if (c->pos >= 0 && c->cb) {
+		struct xmp_callbacks cbs;
+		cbs.read_func = cb_read;
+		cbs.seek_func = cb_seek;
+		cbs.tell_func = cb_tell;
+		cbs.close_func = cb_close;
+		memset(&st, 0, sizeof(st));
+		st.data = c->file;
+		st.size = c->filelen;
+		st.left = c->filelen;
+		f = hio_open_callbacks(&st, cbs);
+		if (f == NULL) {
+			fprintf(stderr, "cannot open callback handle\n");
+			exit(3);
+		}
+		hio_seek(f, c->pos, SEEK_SET);
+		st.left = c->limit;
+	} else if (c->pos >= 0) {
 		f = hio_open_const_mem(c->file, c->filelen);
 		if (f == NULL) {
 			fprintf(stderr, "cannot open memory handle (size %ld)\n", c->filelen);
@@ -456,6 +541,101 @@ static void free_case(struct tcase *c)
 	c->file = c->buf = NULL;
 }
 
+/* callback handle, random short read */
+static void short_case(struct tcase *c, long idx)
+{
+	int need, tries = 0;
+	long avail;
+
+	do {
+		if (tries++)
+			free_case(c);
+		memset(c, 0, sizeof(*c));
+		random_case(c, idx, 0);
+	} while (c->pos < 0 || c->len > MAX_SAMPLE_SIZE);
+	snprintf(c->id, sizeof(c->id), "s%ld", idx);
+	if (vrng_chance(60)) {
+		/* plain stream samples are where a short read is survivable: bias towards them */
+		c->flags &= ~(SAMPLE_FLAG_NOLOAD | SAMPLE_FLAG_ADLIB);
+		if (vrng_chance(80))
+			c->flags &= ~SAMPLE_FLAG_ADPCM;
+		if (c->len <= 0)
+			c->len = vrng_range(1, 40);
+		c->skip &= 1;
+	}
+	need = c->len > 0 ? need_bytes(c->flags, c->flg, c->len) : 0;
+	avail = c->filelen - c->pos;
+	if (vrng_chance(50) && avail < need && !(c->flags & SAMPLE_FLAG_NOLOAD)) {
+		/* make the stream complete so that only the read, not the size check, cuts the sample */
+		long prefix = c->pos;
+		free(c->file);
+		c->filelen = prefix + need + vrng_range(0, 3);
+		c->file = (unsigned char *)malloc(c->filelen);
+		fill_random(c->file, c->filelen);
+		avail = c->filelen - prefix;
+	}
+	c->cb = 1;
+	switch (vrng_below(10)) {
+	case 0:
+		c->limit = 0;	/* the read function fails outright */
+		break;
+	case 1:
+		c->limit = avail + vrng_range(0, 4);	/* delivers everything */
+		break;
+	case 2:
+		c->limit = need > 0 ? need - 1 : 0;
+		break;
+	case 3:
+		c->limit = vrng_range(0, 17);
+		break;
+	default:
+		c->limit = vrng_range(0, need + 1);
+	}
+}
+
+static void exhaustive_short(long shard, long nshards)
+{
+	static const int fsets[8] = { 0, SAMPLE_FLAG_DIFF, SAMPLE_FLAG_UNS | SAMPLE_FLAG_BIGEND, SAMPLE_FLAG_INTERLEAVED,
+		SAMPLE_FLAG_8BDIFF | SAMPLE_FLAG_7BIT, SAMPLE_FLAG_VIDC | SAMPLE_FLAG_FULLREP, SAMPLE_FLAG_ADPCM,
+		SAMPLE_FLAG_ADPCM | SAMPLE_FLAG_INTERLEAVED | SAMPLE_FLAG_UNS };
+	long counter = 0;
+	int fi, w, len, a, limit;
+	struct tcase c;
+	unsigned char file[96];
+
+	for (fi = 0; fi < 8; fi++)
+		for (w = 0; w < 4; w++)
+			for (len = 1; len <= 6; len++) {
+				int wf = ((w & 1) ? XMP_SAMPLE_16BIT : 0) | ((w & 2) ? XMP_SAMPLE_STEREO : 0);
+				int need = need_bytes(fsets[fi], wf, len);
+				for (a = 0; a < 3; a++) {
+					int avail = a == 0 ? need : (a == 1 ? need + 3 : need - 1 - (len > 2 ? frame_len(wf) : 0));
+					if (avail < 1)
+						continue;
+					for (limit = 0; limit <= need + 1; limit++) {
+						counter++;
+						if (counter % nshards != shard)
+							continue;
+						memset(&c, 0, sizeof(c));
+						vrng_seed((uint64_t)counter * 2654435761u + 777);
+						snprintf(c.id, sizeof(c.id), "x%ld", counter);
+						c.flags = fsets[fi];
+						c.len = len;
+						c.lps = (int)(counter % 3);
+						c.lpe = len - (int)(counter % 2);
+						c.flg = wf | ((counter & 4) ? XMP_SAMPLE_LOOP : 0);
+						c.pos = 1 + (counter & 1);
+						c.filelen = c.pos + avail;
+						fill_random(file, c.filelen);
+						c.file = file;
+						c.cb = 1;
+						c.limit = limit;
+						run_case(&c);
+					}
+				}
+			}
+}
+
 /* exhaustive small space */
 static const int LOOPFLG[6] = { 0, XMP_SAMPLE_LOOP, XMP_SAMPLE_LOOP | XMP_SAMPLE_LOOP_BIDIR, XMP_SAMPLE_LOOP_BIDIR,
 	XMP_SAMPLE_SLOOP_BIDIR, XMP_SAMPLE_LOOP | XMP_SAMPLE_SLOOP | XMP_SAMPLE_SLOOP_BIDIR | XMP_SAMPLE_LOOP_FULL };
@@ -552,6 +732,7 @@ static int replay(const char *path)
 	size_t cap = 1 << 22;
 	char *line = (char *)malloc(cap), *fh, *bh;
 	struct tcase c;
+	int nf;
 	if (!fp) {
 		perror(path);
 		return 2;
@@ -562,11 +743,13 @@ static int replay(const char *path)
 		if (strncmp(line, "case ", 5) != 0)
 			continue;
 		memset(&c, 0, sizeof(c));
-		if (sscanf(line, "case %39s %d %d %d %d %d %d %ld %s %s", c.id, &c.flags, &c.len, &c.lps, &c.lpe, &c.flg,
-			   &c.skip, &c.pos, fh, bh) != 10) {
+		nf = sscanf(line, "case %39s %d %d %d %d %d %d %ld %s %s %ld", c.id, &c.flags, &c.len, &c.lps, &c.lpe, &c.flg,
+			    &c.skip, &c.pos, fh, bh, &c.limit);
+		if (nf != 10 && nf != 11) {
 			fprintf(stderr, "bad case line\n");
 			return 2;
 		}
+		c.cb = nf == 11 && c.limit >= 0;
 		c.filelen = get_hex(fh, &c.file);
 		c.buflen = get_hex(bh, &c.buf);
 		if (c.filelen < 0 || c.buflen < 0) {
@@ -603,6 +786,16 @@ int main(int argc, char **argv)
 		return 2;
 	if (!strcmp(argv[1], "exh")) {
 		exhaustive(atol(argv[2]), atol(argv[3]), argc > 4 ? atoi(argv[4]) : 3);
+	} else if (!strcmp(argv[1], "exhs")) {
+		exhaustive_short(atol(argv[2]), atol(argv[3]));
+	} else if (!strcmp(argv[1], "short")) {
+		vrng_seed((uint64_t)atoll(argv[2]) * 31 + 7);
+		n = atol(argv[3]);
+		for (i = 0; i < n; i++) {
+			short_case(&c, i);
+			run_case(&c);
+			free_case(&c);
+		}
 	} else {
 		int big = !strcmp(argv[1], "big");
 		vrng_seed((uint64_t)atoll(argv[2]) * 31 + big);
